@@ -12,7 +12,13 @@ structural recursion over the list of items.  The loop-carried variables are the
 the other variables the body reads are fixed parameters.  A loop function returns
 `Py.Loop.ret v` (the enclosing function returned `v`), `Py.Loop.done (carried…)` (loop ended) or
 `Py.Loop.fuelOut`.  A function that contains a `while` loop takes an extra leading `(fuel : Nat)` and
-returns `Py.Out` (`val v | fuelOut`) instead of `Py.Val`.  Run on every check, from the *current* source, so the
+returns `Py.Out` (`val v | fuelOut`) instead of `Py.Val`.
+
+Strings: `str` methods (`strip lower replace split join startswith endswith format`), f-strings, `str()`,
+`divmod`, `in`, slices and `float(str)` are calls of the string library of lean/Plotink/Py.lean.
+Exceptions are values (`Py.Val.err`): `try: x = e … except E: H` becomes `let x := e; if Py.isErr x then H …`
+(the handler is entered for any failure of a `try`-body assignment, whatever the exception type).
+Module-level constants (`NAME = literal`) are inlined.  Run on every check, from the *current* source, so the
 theorems in lean/Plotink/Props/*.lean that are stated about `Plotink.Gen.<f>`
 are re-checked against what the code says now.
 
@@ -70,10 +76,15 @@ def lean_str(s):
 
 
 class FnTr:
-    def __init__(self, fn, known):
-        """known: dict short name -> ast.FunctionDef of every translated function (for defaults)."""
+    STR_METHODS = {'strip': (0, 'str_strip'), 'lower': (0, 'str_lower'), 'replace': (2, 'str_replace'),
+                   'join': (1, 'str_join'), 'startswith': (1, 'str_startswith'), 'endswith': (1, 'str_endswith')}
+
+    def __init__(self, fn, known, consts=None):
+        """known: dict short name -> ast.FunctionDef of every translated function (for defaults).
+        consts: module-level `NAME = literal` assignments of the function's module (inlined)."""
         self.fn = fn
         self.known = known
+        self.consts = consts or {}
         self.deps = []
         self.mutated = []    # parameters updated in place (returned alongside the return value)
         self.storable = set()
@@ -106,8 +117,27 @@ class FnTr:
             raise Unsupported(f"constant {v!r}")
         if isinstance(e, ast.Name):
             if ident(e.id) not in self.defined:
+                if e.id in self.consts:
+                    return self.val(self.consts[e.id])
                 raise Unsupported(f"free name {e.id}")
             return ident(e.id)
+        if isinstance(e, ast.JoinedStr):
+            parts = []
+            for v in e.values:
+                if isinstance(v, ast.Constant) and isinstance(v.value, str):
+                    parts.append(f"(Py.Val.str {lean_str(v.value)})")
+                elif isinstance(v, ast.FormattedValue):
+                    if v.conversion != -1:
+                        raise Unsupported("f-string conversion")
+                    spec = ''
+                    if v.format_spec is not None:
+                        if not all(isinstance(x, ast.Constant) and isinstance(x.value, str) for x in v.format_spec.values):
+                            raise Unsupported("computed format spec")
+                        spec = ''.join(x.value for x in v.format_spec.values)
+                    parts.append(f"(Py.format_ {self.val(v.value)} {lean_str(spec)})")
+                else:
+                    raise Unsupported("f-string part")
+            return "(Py.fjoin [" + ", ".join(parts) + "])"
         if isinstance(e, ast.UnaryOp):
             if isinstance(e.op, ast.USub):
                 if isinstance(e.operand, ast.Constant) and isinstance(e.operand.value, int) \
@@ -159,7 +189,52 @@ class FnTr:
             return f"{f.value.id}.{f.attr}"
         raise Unsupported("callee")
 
+    def method_call(self, e):
+        """`recv.method(args)` for the string methods; None if `e` is not such a call"""
+        f = e.func
+        if not isinstance(f, ast.Attribute):
+            return None
+        if isinstance(f.value, ast.Name) and ident(f.value.id) not in self.defined:
+            return None            # a module (`math.floor`, `mpmath.mpf`, `ebb_calc.f`)
+        if e.keywords:
+            raise Unsupported("keywords on a method call")
+        if f.attr == 'format' and isinstance(f.value, ast.Constant) and isinstance(f.value.value, str):
+            import string as _string
+            parts, auto = [], 0
+            for lit, field, spec, conv in _string.Formatter().parse(f.value.value):
+                if lit:
+                    parts.append(f"(Py.Val.str {lean_str(lit)})")
+                if field is None:
+                    continue
+                if conv is not None or '{' in (spec or ''):
+                    raise Unsupported("format field")
+                if field == '':
+                    k = auto
+                    auto += 1
+                elif field.isdigit():
+                    k = int(field)
+                else:
+                    raise Unsupported("named format field")
+                if k >= len(e.args):
+                    raise Unsupported("format index")
+                parts.append(f"(Py.format_ {self.val(e.args[k])} {lean_str(spec or '')})")
+            return "(Py.fjoin [" + ", ".join(parts) + "])"
+        recv = self.val(f.value)
+        A = [self.val(x) for x in e.args]
+        if f.attr == 'split':
+            if len(A) == 0:
+                return f"(Py.str_split {recv})"
+            if len(A) == 1:
+                return f"(Py.str_split_sep {recv} {A[0]})"
+            raise Unsupported("split with maxsplit")
+        if f.attr in self.STR_METHODS and self.STR_METHODS[f.attr][0] == len(A):
+            return f"(Py.{self.STR_METHODS[f.attr][1]} {recv}" + "".join(" " + a for a in A) + ")"
+        raise Unsupported(f"method {f.attr}")
+
     def call(self, e):
+        m = self.method_call(e)
+        if m is not None:
+            return m
         n = self.fname(e.func)
         short = n.split('.')[-1]
         if short in self.known and n not in ('math.floor', 'math.ceil'):
@@ -204,6 +279,10 @@ class FnTr:
             if n == 'float':
                 return f"(Py.float_ R {A[0]})"
             return f"(Py.{simple[n]} {A[0]})"
+        if n == 'str' and len(A) == 1:
+            return f"(Py.str_ {A[0]})"
+        if n == 'divmod' and len(A) == 2:
+            return f"(Py.divmod_ R prec {A[0]} {A[1]})"
         if n == 'len' and len(A) == 1:
             return f"(Py.len_ {A[0]})"
         if n == 'range' and 1 <= len(A) <= 3:
@@ -263,6 +342,9 @@ class FnTr:
         if isinstance(op, (ast.In, ast.NotIn)) and isinstance(r, (ast.Tuple, ast.List, ast.Set)):
             inner = "(" + " || ".join(f"(Py.eq {self.val(l)} {self.val(x)})" for x in r.elts) + ")"
             return inner if isinstance(op, ast.In) else f"(!{inner})"
+        if isinstance(op, (ast.In, ast.NotIn)):
+            inner = f"(Py.contains {self.val(l)} {self.val(r)})"
+            return inner if isinstance(op, ast.In) else f"(!{inner})"
         raise Unsupported(f"cmp {type(op).__name__}")
 
     # ---------- statements ----------
@@ -278,7 +360,7 @@ class FnTr:
         for s in stmts:
             if isinstance(s, (ast.Return, ast.Continue, ast.Break)):
                 return 'always'     # control leaves the block
-            if isinstance(s, (ast.While, ast.For, ast.Assert)):
+            if isinstance(s, (ast.While, ast.For, ast.Assert, ast.Try)):
                 cls = 'maybe'
             if isinstance(s, ast.If):
                 a, b = self.ret_class(s.body), self.ret_class(s.orelse)
@@ -321,6 +403,10 @@ class FnTr:
                         out.append(n)
             elif isinstance(s, ast.While):
                 for n in self.assigned(s.body):
+                    if n not in out:
+                        out.append(n)
+            elif isinstance(s, ast.Try):
+                for n in self.assigned(s.body) + [x for h in s.handlers for x in self.assigned(h.body)]:
                     if n not in out:
                         out.append(n)
             elif isinstance(s, ast.For):
@@ -432,6 +518,12 @@ class FnTr:
             if mode != 'ret':
                 raise Unsupported("loop in joined block")
             return self.loop(s, rest, ind, final)
+        if isinstance(s, ast.Try):
+            if mode != 'ret':
+                raise Unsupported("try in joined block")
+            if s.orelse or s.finalbody or len(s.handlers) != 1 or s.handlers[0].name is not None:
+                raise Unsupported("try form")
+            return self.try_stmts(list(s.body), list(s.handlers[0].body), rest, ind, final)
         if isinstance(s, ast.If):
             a, b = self.ret_class(s.body), self.ret_class(s.orelse)
             c = self.cond(s.test)
@@ -472,6 +564,23 @@ class FnTr:
                 B = self.seq(list(s.orelse) + rest, ind + 1, final, 'ret')
             return [f"{pad}if {c} then"] + A + [f"{pad}else"] + B
         return self.simple(s, ind) + self.seq(rest, ind, final, mode)
+
+    def try_stmts(self, body, hbody, rest, ind, final):
+        """`try: x1 = e1; x2 = e2 … except E: H` followed by `rest`.  Exceptions are values: after each assignment
+        `if Py.isErr x then H; rest else …`."""
+        pad = '  ' * ind
+        if not body:
+            return self.seq(rest, ind, final, 'ret')
+        st = body[0]
+        if not (isinstance(st, ast.Assign) and len(st.targets) == 1 and isinstance(st.targets[0], ast.Name)):
+            raise Unsupported("try body statement (only `name = expression`)")
+        lines = self.simple(st, ind)
+        n = ident(st.targets[0].id)
+        saved = set(self.defined)
+        H = self.seq(hbody + rest, ind + 1, final, 'ret')
+        self.defined = saved
+        B = self.try_stmts(body[1:], hbody, rest, ind + 1, final)
+        return lines + [f"{pad}if (Py.isErr {n}) then"] + H + [f"{pad}else"] + B
 
     # ---------- loops ----------
     def source_ret(self, v):
@@ -673,6 +782,12 @@ FUNCTIONS = [
     ('plot_utils.py', 'clip_segment'),
     ('plot_utils.py', 'points_in_tolerance'),
     ('plot_utils.py', 'supersample'),
+    ('text_utils.py', 'xml_escape'),
+    ('text_utils.py', 'format_hms'),
+    ('plot_utils.py', 'parseLengthWithUnits'),
+    ('plot_utils.py', 'unitsToUserUnits'),
+    ('plot_utils.py', 'userUnitToUnits'),
+    ('plot_utils.py', 'vb_scale'),
 ]
 
 
@@ -705,13 +820,22 @@ def generate(repo, outdir):
             status = 'missing'
             code = f"def {name}_missing : Bool := true"
         else:
-            tr = FnTr(fn, known)
+            consts = {}
+            for st in trees[mod].body:
+                if isinstance(st, ast.Assign) and len(st.targets) == 1 and isinstance(st.targets[0], ast.Name):
+                    v = st.value
+                    if isinstance(v, ast.UnaryOp) and isinstance(v.op, ast.USub):
+                        v = v.operand
+                    if isinstance(v, ast.Constant) and isinstance(v.value, (int, float, str)) or \
+                            isinstance(v, ast.Constant) and v.value is None:
+                        consts[st.targets[0].id] = st.value
+            tr = FnTr(fn, known, consts)
             try:
                 code = tr.translate()
                 deps = tr.deps
             except Unsupported as ex:
                 status = f"unsupported: {ex}"
-                tr2 = FnTr(fn, known)
+                tr2 = FnTr(fn, known, consts)
                 code = tr2.stub()
                 deps = []
         imports = "import Plotink.Py\n" + "".join(f"import Plotink.Gen.{d}\n" for d in deps)
